@@ -736,7 +736,7 @@ def check_convergence(R, sh: SolverShape) -> None:
         conv, ct_ = sh.convergence_node()
         (quant, op, operand, tol, has_abs) = ct_
     except Wrong as e:
-        R.violation(sh.q, 'convergence:wrong-shape', str(e), where=sh.fi.where)
+        R.violation(sh.q, 'convergence:wrong-shape', str(e), where=sh.fi.where, mismatch=True)
         return
     key = 'convergence'
     if getattr(ct_, 'nan_permissive', False):
